@@ -103,3 +103,26 @@ Proof.
   - intros i j Hij Hj. assert (H : i = 0 /\ j = 1) by (change (4 / 2) with 2 in Hj; lia). destruct H as [-> ->]. vm_compute. reflexivity.
   - vm_compute. reflexivity.
 Qed.
+
+(* ---- "... falling back to the Silf pseudo-glyph map" (Model/PseudoModel.v: Silf::findPseudo and its two callers, the text reader that
+   gives every slot its initial glyph and gr_face_is_char_supported; their shape is regenerated from the source, Gen/GenPseudo.v).
+   The cmap's answer stands whenever it is not 0; only then is the pseudo map asked ... *)
+From GR Require Import Model.PseudoModel Proofs.PseudoProofs Gen.GenPseudo.
+Theorem C13_pseudo_only_when_unmapped : forall g pm u, (g <> 0 -> initial_glyph g pm u = g) /\ initial_glyph 0 pm u = find_pseudo pm u.
+Proof. intros. split; [apply initial_glyph_mapped | apply initial_glyph_unmapped]. Qed.
+Print Assumptions C13_pseudo_only_when_unmapped.
+(* ... which answers with the glyph listed for that code point -- ANY code point, of any plane -- and with 0 for one it does not list ... *)
+Theorem C13_pseudo_lookup : forall pm u, (forall g, NoDup (map fst pm) -> In (u, g) pm -> find_pseudo pm u = g) /\ (~ In u (map fst pm) -> find_pseudo pm u = 0).
+Proof. intros. split; [intros g; apply find_pseudo_found | apply find_pseudo_absent]. Qed.
+Print Assumptions C13_pseudo_lookup.
+(* ... so a character is supported exactly when the cmap maps it or the pseudo map gives it a glyph. *)
+Theorem C13_supported_iff : forall g pm u, char_supported g pm u = true <-> (g <> 0 \/ find_pseudo pm u <> 0).
+Proof. exact char_supported_iff. Qed.
+Print Assumptions C13_supported_iff.
+(* tie A: the key of a pseudo entry is wide enough for every Unicode scalar value (nothing is truncated before the comparison) *)
+Theorem C13_pseudo_key_tied : forall u, u < 0x110000 -> u mod 2 ^ GenPseudo.pseudo_uid_bits = u.
+Proof. exact gen_pseudo_key_holds_every_scalar. Qed.
+Print Assumptions C13_pseudo_key_tied.
+Example C13_example_pseudo : let pm := [(0xE01, 218); (0xF0000, 66); (0x10FFFF, 7)] in
+  initial_glyph 0 pm 0xF0000 = 66 /\ initial_glyph 0 pm 0x10FFFF = 7 /\ initial_glyph 5 pm 0xF0000 = 5 /\ char_supported 0 pm 0xF0001 = false /\ NoDup (map fst pm).
+Proof. cbn. repeat split; repeat constructor; cbn; intuition discriminate. Qed.
